@@ -351,6 +351,19 @@ func spec(c *kase) *expectation {
 			// client accepts at all is a faithful label for the error body
 			e.CTAllowed, e.CTWhy = acceptable(acc, both), "no transport: any supported type acceptable to the client"
 		}
+		// handler.Server itself has no negotiation (that belongs to the transports, none of which
+		// was selected): its generic JSON error labelled application/json is accepted too. The
+		// property's negotiation clause is about responses produced by a transport.
+		hasJSON := false
+		for _, ct := range e.CTAllowed {
+			if ct == ctJSON {
+				hasJSON = true
+			}
+		}
+		if !hasJSON {
+			e.CTAllowed = append(e.CTAllowed, ctJSON)
+			e.CTWhy += "; or application/json (the server's own transport-independent error)"
+		}
 		e.Outcome, e.Why = "refuse-no-transport", "no registered transport supports "+c.Enc
 		return e
 	}
